@@ -22,7 +22,11 @@ m=json.load(open('$OUT/meta$N.json'))
 txt=json.dumps(m)
 paths=sorted(set(re.findall(r'mistral/tests/unit/[\w/]+\.py', txt)))
 paths=[p for p in paths if 'seeded' not in p]
-print(' '.join(paths[:8]))
+dirs=sorted(set(re.findall(r'mistral/tests/unit/(?:api|utils|actions|workflow|lang|services|db|executors|rpc|scheduler|policies)(?=[\s"\'\\,;]|$)', txt)))
+paths = paths[:8] + [d for d in dirs if not any(p.startswith(d) for p in paths)][:3]
+# a module that imports cleanly must be collected first (some modules hit a
+# circular import when collected first, on the unmodified tree as well)
+print(' '.join(['mistral/tests/unit/engine/test_noop_task.py'] + paths) if paths else '')
 PY
 )
 EXIST="(none named)"
